@@ -26,6 +26,7 @@ func init() {
 	ruleText["R02.4"] = "in every operator expression of a generator closure the left operand derives only from child 0 and the right operand only from child 1 (or is the literal 1 of ++/--)"
 	ruleText["R02.6"] = "constant operands are materialised through the go/constant accessor of the destination kind (same analysis as C03/R03.2): Float32Val for float32/complex64, Float64Val for float64/complex128, Int64Val/Uint64Val for integers"
 	ruleText["R02.7"] = "in cfg, every statement A.findex = D.findex where D is a child of the assignment node X that A belongs to is unreachable when X is a compound assignment: some enclosing condition (if, or case of an expression-less switch, earlier cases negated) is false under X.kind == assignStmt, X.action != aAssign"
+	ruleText["R02.8"] = "in cfg, every assignment of node.findex guarded by 'the parent is a return statement' is unreachable when the return has several operands and the function's results are named (conditions evaluated three-valued under len(anc.child) > 1 and mustReturnValue(...) == false, one-line boolean helpers inlined)"
 	ruleText["R02.5"] = "in a closure that returns either the true or the false successor, the block guarded by the operator expression stores true and returns tnext, the other stores false and returns fnext"
 }
 
@@ -60,6 +61,7 @@ func runC02(c *Config, r *Report) {
 	x.r1()
 	x.r2()
 	x.r7()
+	x.r8()
 	x.r3()
 	// constant operands: materialised through the accessor of their kind (shared with C03/R03.2)
 	sub := newReport("C03")
@@ -783,6 +785,7 @@ func (x *c02ctx) r3() {
 			}
 		}
 		var problems []string
+		var incomplete []string
 		var firstPos token.Pos
 		cases := 0
 		ast.Inspect(fi.Decl.Body, func(n ast.Node) bool {
@@ -846,6 +849,39 @@ func (x *c02ctx) r3() {
 							if !firstPos.IsValid() {
 								firstPos = l.Pos()
 							}
+						}
+					}
+				}
+				// class completeness: a case that lists most kinds of a numeric class lists them all
+				// (uintptr belongs with the unsigned kinds); a missing kind has no closure at all.
+				if sw.Tag != nil {
+					listed := map[string]map[string]bool{}
+					for _, l := range cc.List {
+						if se, ok := unparen(l).(*ast.SelectorExpr); ok {
+							if c, ok := ic.Info.Uses[se.Sel].(*types.Const); ok && c.Pkg() != nil && c.Pkg().Path() == "reflect" {
+								if cl := kindClass[c.Name()]; cl != "" {
+									if listed[cl] == nil {
+										listed[cl] = map[string]bool{}
+									}
+									listed[cl][c.Name()] = true
+								}
+							}
+						}
+					}
+					for cl, have := range listed {
+						total := 0
+						var missing []string
+						for k, c := range kindClass {
+							if c == cl {
+								total++
+								if !have[k] {
+									missing = append(missing, "reflect."+k)
+								}
+							}
+						}
+						if len(have) >= 3 && len(missing) > 0 {
+							sort.Strings(missing)
+							incomplete = append(incomplete, fmt.Sprintf("the case of %s kinds at %s lacks %s", cl, ic.pos(cc.Pos()), strings.Join(missing, ", ")))
 						}
 					}
 				}
@@ -934,6 +970,11 @@ func (x *c02ctx) r3() {
 			}
 			return true
 		})
+		if isOp && len(incomplete) > 0 {
+			r.Fail("R02.3", name+"/kind-class-complete", ic.pos(fi.Decl.Pos()), "operator generator "+name+": "+strings.Join(dedup(incomplete), "; ")+": for an operand of that kind no closure is installed at all, so the statement (and the rest of the function) is silently not executed, e.g. p++ with p of type uintptr")
+		} else if isOp && cases > 0 {
+			r.Pass("R02.3", name+"/kind-class-complete", ic.pos(fi.Decl.Pos()), "every case naming three or more kinds of a numeric class names all of them")
+		}
 		if cases == 0 {
 			continue
 		}
